@@ -313,9 +313,18 @@ func VH_C19_Clock() {
 	t0 := time.Date(2020, 1, 2, 0, 0, 0, 0, time.UTC)
 	now1 := t0.Add(time.Duration(choose(3)) * day)
 	now2 := t0.Add(time.Duration(choose(3)) * day)
-	withDates := choose(2) == 1
+	// dates: 0 = not supplied, 1 = both supplied, 2/3 = both supplied, the revision resp. creation date being the zero
+	// time (a supplied date is used whatever its value: the clock is only for dates the metadata does not carry)
+	dates := choose(4)
+	withDates := dates > 0
 	if withDates {
 		cd, rd := t0.Add(40*day), t0.Add(50*day)
+		if dates == 2 {
+			rd = time.Time{}
+		}
+		if dates == 3 {
+			cd = time.Time{}
+		}
 		s.Metadata.STLCreationDate = &cd
 		s.Metadata.STLRevisionDate = &rd
 	}
